@@ -113,4 +113,71 @@ func runC20(c *core.Ctx) {
 			}
 		})
 	}
+
+	// ---- partial values of correctly SIGNED structures, after the intact structure has been
+	// verified successfully in the same process (state carried from a successful verification —
+	// a cache keyed by content — must not make a truncated copy verify): every truncation point
+	kinds := []struct {
+		parser string
+		mk     func(r *core.Rand, i int) signedCase
+	}{
+		{"router_info.ReadRouterInfo", func(r *core.Rand, i int) signedCase { return signedRouterInfo(r, 7) }},
+		{"lease_set.ReadLeaseSet", func(r *core.Rand, i int) signedCase { return signedLeaseSet(r, []int{7, 0}[i%2]) }},
+		{"lease_set2.ReadLeaseSet2", func(r *core.Rand, i int) signedCase {
+			return signedLeaseSet2(r, []int{7, 11, 0}[i%3], i%2 == 1, []int{7, 11, 0}[(i/2)%3])
+		}},
+		{"meta_leaseset.ReadMetaLeaseSet", func(r *core.Rand, i int) signedCase {
+			return signedMeta(r, []int{7, 11}[i%2], i%4 >= 2, []int{11, 7}[(i/4)%2])
+		}},
+		{"encrypted_leaseset.ReadEncryptedLeaseSet", func(r *core.Rand, i int) signedCase {
+			return signedELS(r, []int{7, 11}[i%2], i%4 >= 2, []int{7, 11}[(i/4)%2])
+		}},
+	}
+	for _, k := range kinds {
+		k := k
+		p := lib.ByNameCached(k.parser)
+		c.Job("signed-partial/"+k.parser, c.N(12, 240), func(i int, r *core.Rand) {
+			sc := k.mk(r, i)
+			whole, panicked, _, _ := callParser(c, *p, sc.bytes)
+			c.Eval(1)
+			if panicked || !whole.Accepted || whole.Val == nil {
+				c.Bucket("signed-partial/intact-not-accepted")
+				return
+			}
+			verified := false
+			c.Call(k.parser+"/verify-intact", sc.bytes, func() {
+				for _, o := range lib.Observe(whole.Val, lib.ObserveOpts{Depth: 0}) {
+					if o.Verify && o.VerifyOK {
+						verified = true
+					}
+				}
+			})
+			if verified {
+				c.Bucket("signed-partial/intact-verified/" + sc.kind)
+			} else {
+				c.Bucket("signed-partial/intact-did-not-verify/" + sc.kind)
+			}
+			w := sc.bytes
+			for cut := 0; cut < len(w); cut++ {
+				if c.Quick() && len(w) > 700 && cut > 8 && cut < len(w)-200 && cut%5 != 0 {
+					continue
+				}
+				in := w[:cut]
+				out, panicked, _, _ := callParser(c, *p, in)
+				c.Eval(1)
+				if panicked || out.Accepted || out.Val == nil {
+					continue
+				}
+				rv := reflect.ValueOf(out.Val)
+				if rv.Kind() == reflect.Ptr && rv.IsNil() {
+					continue
+				}
+				c.Nontrivial([]byte(k.parser), in)
+				c.Bucket("partial-values-of-signed/" + sc.kind)
+				var obs []lib.Obs
+				c.Call(k.parser+"/partial-observe", in, func() { obs = lib.Observe(out.Val, lib.ObserveOpts{Depth: 1}) })
+				c20Report(c, "partial-value:"+k.parser, obs, gen.Shape{"class": "partial-value-of-verified-structure", "len": len(in), "of": len(w), "intact_verified": verified}, in)
+			}
+		})
+	}
 }
